@@ -1,5 +1,5 @@
 //! Censuses: finite dimensions enumerated completely.
 
-pub fn materialize(_spec: &str) -> Option<Vec<u8>> {
-    None
+pub fn materialize(spec: &str) -> Option<Vec<u8>> {
+    crate::mutate::materialize(spec)
 }
